@@ -68,6 +68,7 @@ type Obligation struct {
 	Inputs  []*Term // scalar input variables to report in models
 	Known   bool
 	Note    string
+	Axioms  []*Term
 }
 
 type Exec struct {
@@ -88,12 +89,13 @@ type Exec struct {
 	inputs   []*Term
 	inlined  map[string]bool
 	axioms   []*Term // quantified background axioms (count functions etc.)
+	ufRange  map[string]*Term
 	counts   map[string]*countDef
 }
 
 func newExec(w *World, pkg *PkgInfo, fn *FuncInfo) *Exec {
 	return &Exec{w: w, pkg: pkg, fn: fn, facts: map[int]*Term{}, factKeys: map[int]*Term{}, locTypes: map[string]types.Type{},
-		names: map[string]int{}, warnings: map[string]bool{}, inlined: map[string]bool{}, counts: map[string]*countDef{}}
+		ufRange: map[string]*Term{}, names: map[string]int{}, warnings: map[string]bool{}, inlined: map[string]bool{}, counts: map[string]*countDef{}}
 }
 
 func (x *Exec) contracts() *Contracts { return x.pkg.Contracts }
@@ -109,6 +111,23 @@ func (x *Exec) warn(f string, a ...any) { x.warnings[fmt.Sprintf(f, a...)] = tru
 
 func (x *Exec) addFact(key *Term, fact *Term) {
 	if fact == True {
+		return
+	}
+	if key.bound || fact.bound {
+		// facts about terms under a binder cannot be stated at top level; for
+		// uninterpreted getters a quantified range axiom is recorded instead
+		if key.Op == "app" && key.Sort == SInt {
+			if _, done := x.ufRange[key.Name]; !done {
+				d := declTable[key.Name]
+				var bvs []*Term
+				for i, s := range d.Args {
+					bvs = append(bvs, BVar(fmt.Sprintf("a%d!%s", i, key.Name), s))
+				}
+				app := mk("app", key.Name, SInt, bvs...)
+				m := map[*Term]*Term{key: app}
+				x.ufRange[key.Name] = Forall(bvs, Subst(fact, m))
+			}
+		}
 		return
 	}
 	if old, ok := x.facts[key.id]; ok {
@@ -186,6 +205,15 @@ func (x *Exec) lazyInit(key string, T types.Type, ep *Epoch) Value {
 
 func (x *Exec) load(st *State, key string, T types.Type) Value {
 	if v, ok := st.store[key]; ok {
+		return v
+	}
+	if strings.HasPrefix(key, "G:") {
+		g := x.contracts().GhostIdx[key[2:]]
+		if g == nil {
+			panic(engineErr("unknown ghost %s", key))
+		}
+		v := x.lazyGhost(g, st.epoch)
+		st.store[key] = v
 		return v
 	}
 	if T == nil {
